@@ -297,11 +297,12 @@ class GeckoAsyncSpaMan(ABC, AsyncTasks):
 
         This API will connect to the specified spa using the supplied descriptor"""
         assert self._facade is None
+        spa: Optional[GeckoAsyncSpa] = None
 
         try:
             self._spa_name = spa_descriptor.name
             await self._handle_event(GeckoSpaEvent.CONNECTION_STARTED)
-            self._spa = GeckoAsyncSpa(
+            spa = self._spa = GeckoAsyncSpa(
                 self._client_id, spa_descriptor, self, self._handle_event
             )
             await self._spa.connect()
@@ -310,6 +311,10 @@ class GeckoAsyncSpaMan(ABC, AsyncTasks):
                 self._facade = GeckoAsyncFacade(self._spa, self)
 
         finally:
+            if spa is not None and self._spa is not spa:
+                # A reset took this spa away while it was still connecting, so
+                # release whatever the attempt opened after that (endpoint, tasks)
+                await spa.disconnect()
             await self._handle_event(
                 GeckoSpaEvent.CONNECTION_FINISHED, facade=self._facade
             )
